@@ -18,7 +18,7 @@
 
    Definitions only; facts are in CliFacts.v. *)
 From Coq Require Import List NArith Bool Arith.
-From RPFT Require Import Base.Sexp Base.PyStr Base.Result Gen.Tables.
+From RPFT Require Import Base.Sexp Base.PyStr Base.Result Gen.Tables Io.CliLog.
 Import ListNotations.
 
 (* ---------------------------------------------------------------- outcomes *)
@@ -64,9 +64,15 @@ Fixpoint assocN (l : list (N * N)) (k : N) : option N :=
   | (a, b) :: r => if N.eqb a k then Some b else assocN r k
   end.
 
+(* ... and only if that holds however the command was started: the handlers that see the record
+   are set up when rpft.cli is imported, from the environment, the working directory and the
+   options (Io/CliLog.v, regenerated table `c15_log_configs`).  A site counts as stopping when
+   a record of its level ends the process under EVERY configuration of that table that gets as
+   far as the library call; one configuration with no terminating handler makes every site
+   answer EOutOfScope. *)
 Definition site_stops (c : cls) : bool :=
   match assocN c15_site_levels (cls_code c) with
-  | Some lvl => N.leb c15_shutdown_threshold lvl
+  | Some lvl => N.leb c15_shutdown_threshold lvl && every_config_stops_at lvl
   | None => false
   end.
 
